@@ -32,23 +32,28 @@ theorem tm_user_multi (id : Ident) (u : UserTy) (m : Str) (cs : List Err) (h : u
   show (⟨Full.family u.name, []⟩ : TMark) = _
   rw [userOK_family h]
 
+/-- closes the re-encoding goal of a decoded layer -/
+macro "enc_tac" : tactic =>
+  `(tactic| (simp_all [encode, encodeList, typeKey, Full_knows, Full_arch, detOf, layerDetails, text, wrapText, leafText, multiText, extractPrefix_self, extractPrefix_pfx, mtPrefix, mtFull]))
+
 theorem hop_wrap (vf : Err → Str) (id : Ident) (k : WrapKind) (c : Err) (path : List Nat)
     (h : wrapStable k (text c) = true)
-    (hc : ∃ c', decode Full (0 :: path) (encode Full vf c) = some c' ∧ shape vf c' = shape vf c ∧ stable c' = true) :
-    ∃ e', decode Full path (encode Full vf (.wrap id k c)) = some e' ∧ shape vf e' = shape vf (.wrap id k c) ∧ stable e' = true := by
-  obtain ⟨c', hd, hs, hst⟩ := hc
+    (hc : ∃ c', decode Full (0 :: path) (encode Full vf c) = some c' ∧ shape vf c' = shape vf c ∧ stable c' = true ∧ encode Full vf c' = encode Full vf c) :
+    ∃ e', decode Full path (encode Full vf (.wrap id k c)) = some e' ∧ shape vf e' = shape vf (.wrap id k c) ∧ stable e' = true ∧ encode Full vf e' = encode Full vf (.wrap id k c) := by
+  obtain ⟨c', hd, hs, hst, hen⟩ := hc
   have ht : text c' = text c := text_eq_of_shape hs
   cases k with
   | withDomain dom =>
-    refine ⟨.wrap path (.withDomain dom) c', ?_, ?_, ?_⟩
+    refine ⟨.wrap path (.withDomain dom) c', ?_, ?_, ?_, ?_⟩
     · simp [encode, decode, hd, typeKey, Full_knows, detOf, buildWrap, decodeHid, layerDetails, extractPrefix_self, text, wrapText]
     · simp [shape, label, storedMark, isSigOf, isMultiNode, stSigOf, annOf, safeOf, layerStackStr, isStackKey, layerHint, layerDetail, layerIssueLink, layerKeys, layerDomain, layerTags, layerHTTP, layerGrpc, isAssertionFailure, isUnimplementedError, isWithIssueLink, timeoutLayer, layerDetails, Err.opaqueDet, detOf, text, wrapText, hs, ht] <;> try rfl
     · simp [stable, wrapStable, hst]
+    · enc_tac
   | withContext tags kinds red =>
     simp [wrapStable] at h
     obtain ⟨h1, h2⟩ := h
     refine ⟨.wrap path (.withContext tags [] (if layerDetails Full vf (.wrap id (.withContext tags kinds red) c) = [] then none
-        else some (layerDetails Full vf (.wrap id (.withContext tags kinds red) c)))) c', ?_, ?_, ?_⟩
+        else some (layerDetails Full vf (.wrap id (.withContext tags kinds red) c)))) c', ?_, ?_, ?_, ?_⟩
     · simp [encode, decode, hd, typeKey, Full_knows, detOf, buildWrap, decodeHid, h1, h2]
     · simp [shape, label, storedMark, isSigOf, isMultiNode, stSigOf, annOf, safeOf, layerStackStr, isStackKey, layerHint, layerDetail, layerIssueLink, layerKeys, layerDomain, layerTags, layerHTTP, layerGrpc, isAssertionFailure, isUnimplementedError, isWithIssueLink, timeoutLayer, layerDetails, Err.opaqueDet, detOf, text, wrapText, hs, ht]
       cases red with
@@ -57,25 +62,34 @@ theorem hop_wrap (vf : Err → Str) (id : Ident) (k : WrapKind) (c : Err) (path 
         simp [layerDetails, hne]
       | some r => simp at h2; simp [layerDetails, h2]
     · simp [stable, wrapStable, hst, h1, h2]
+    · simp [encode, typeKey, Full_knows, detOf, hen]
+      cases red with
+      | none =>
+        have hne : redactTags tags kinds ≠ [] := by rw [Ne, redactTags_eq_nil]; exact h1.1
+        simp [layerDetails, hne]
+      | some r => simp at h2; simp [layerDetails, h2]
   | withMark m t =>
     simp [wrapStable] at h
-    refine ⟨.wrap path (.withMark m t) c', ?_, ?_, ?_⟩
+    refine ⟨.wrap path (.withMark m t) c', ?_, ?_, ?_, ?_⟩
     · simp [encode, decode, hd, typeKey, Full_knows, detOf, buildWrap, decodeHid, h]
     · simp [shape, label, storedMark, isSigOf, isMultiNode, stSigOf, annOf, safeOf, layerStackStr, isStackKey, layerHint, layerDetail, layerIssueLink, layerKeys, layerDomain, layerTags, layerHTTP, layerGrpc, isAssertionFailure, isUnimplementedError, isWithIssueLink, timeoutLayer, layerDetails, Err.opaqueDet, detOf, text, wrapText, hs, ht] <;> try rfl
     · simp [stable, wrapStable, hst, h]
+    · enc_tac
   | fmtWrapError msg =>
     simp [wrapStable] at h
     have hr := extract_reassemble msg (text c) h
-    refine ⟨.wrap path (.opaqueWrapper (extractPrefix msg (text c)).1 (detOf Full (.wrap id (.fmtWrapError msg) c) (layerDetails Full vf (.wrap id (.fmtWrapError msg) c)) .none) (extractPrefix msg (text c)).2 []) c', ?_, ?_, ?_⟩
+    refine ⟨.wrap path (.opaqueWrapper (extractPrefix msg (text c)).1 (detOf Full (.wrap id (.fmtWrapError msg) c) (layerDetails Full vf (.wrap id (.fmtWrapError msg) c)) .none) (extractPrefix msg (text c)).2 []) c', ?_, ?_, ?_, ?_⟩
     · simp [encode, decode, hd, typeKey, Full_knows, detOf, buildWrap, decodeHid, text, wrapText]
     · simp [shape, label, storedMark, isSigOf, isMultiNode, stSigOf, annOf, safeOf, layerStackStr, isStackKey, layerHint, layerDetail, layerIssueLink, layerKeys, layerDomain, layerTags, layerHTTP, layerGrpc, isAssertionFailure, isUnimplementedError, isWithIssueLink, timeoutLayer, layerDetails, Err.opaqueDet, detOf, text, hs, ht, wrapText] <;> (first | exact hr | exact ⟨hr, by simp_all⟩ | simp_all)
     · simp [stable, wrapStable, hst, detOf]
+    · enc_tac
   | opaqueWrapper p d mt hid =>
     simp [wrapStable] at h
-    refine ⟨.wrap path (.opaqueWrapper p d mt hid) c', ?_, ?_, ?_⟩
+    refine ⟨.wrap path (.opaqueWrapper p d mt hid) c', ?_, ?_, ?_, ?_⟩
     · simp [encode, decode, hd, Full_knows, buildWrap, h]
     · simp [shape, label, storedMark, isSigOf, isMultiNode, stSigOf, annOf, safeOf, layerStackStr, isStackKey, layerHint, layerDetail, layerIssueLink, layerKeys, layerDomain, layerTags, layerHTTP, layerGrpc, isAssertionFailure, isUnimplementedError, isWithIssueLink, timeoutLayer, layerDetails, Err.opaqueDet, detOf, text, wrapText, hs, ht] <;> try rfl
     · simp [stable, wrapStable, hst, h]
+    · enc_tac
   | user u msg =>
     simp [wrapStable] at h
     obtain ⟨hu, hsty⟩ := h
@@ -85,21 +99,24 @@ theorem hop_wrap (vf : Err → Str) (id : Ident) (k : WrapKind) (c : Err) (path 
     have htm := tm_user_wrap id u msg c hu
     by_cases h0 : u.style = 0
     · simp [h0] at hsty
-      refine ⟨.wrap path (.opaqueWrapper msg (detOf Full (.wrap id (.user u msg) c) (layerDetails Full vf (.wrap id (.user u msg) c)) .none) mtPrefix []) c', ?_, ?_, ?_⟩
+      refine ⟨.wrap path (.opaqueWrapper msg (detOf Full (.wrap id (.user u msg) c) (layerDetails Full vf (.wrap id (.user u msg) c)) .none) mtPrefix []) c', ?_, ?_, ?_, ?_⟩
       · simp [encode, decode, hd, typeKey, Full_knows, detOf, buildWrap, decodeHid, htm, hcl, text, wrapText, h0, extractPrefix_pfx]
       · simp [shape, label, storedMark, isSigOf, isMultiNode, stSigOf, annOf, safeOf, layerStackStr, isStackKey, layerHint, layerDetail, layerIssueLink, layerKeys, layerDomain, layerTags, layerHTTP, layerGrpc, isAssertionFailure, isUnimplementedError, isWithIssueLink, timeoutLayer, layerDetails, Err.opaqueDet, detOf, text, wrapText, hs, ht, h0, mtPrefix, mtFull, hsty, htm, hns] <;> try rfl
       · simp [stable, wrapStable, hst, htm, hcl, detOf]
+      · enc_tac
     · by_cases h1 : u.style = 1
       · simp [h0, h1] at hsty
         have hr := extract_reassemble msg (text c) hsty
-        refine ⟨.wrap path (.opaqueWrapper (extractPrefix msg (text c)).1 (detOf Full (.wrap id (.user u msg) c) (layerDetails Full vf (.wrap id (.user u msg) c)) .none) (extractPrefix msg (text c)).2 []) c', ?_, ?_, ?_⟩
+        refine ⟨.wrap path (.opaqueWrapper (extractPrefix msg (text c)).1 (detOf Full (.wrap id (.user u msg) c) (layerDetails Full vf (.wrap id (.user u msg) c)) .none) (extractPrefix msg (text c)).2 []) c', ?_, ?_, ?_, ?_⟩
         · simp [encode, decode, hd, typeKey, Full_knows, detOf, buildWrap, decodeHid, htm, hcl, text, wrapText, h0, h1]
         · simp [shape, label, storedMark, isSigOf, isMultiNode, stSigOf, annOf, safeOf, layerStackStr, isStackKey, layerHint, layerDetail, layerIssueLink, layerKeys, layerDomain, layerTags, layerHTTP, layerGrpc, isAssertionFailure, isUnimplementedError, isWithIssueLink, timeoutLayer, layerDetails, Err.opaqueDet, detOf, text, hs, ht, wrapText, h0, h1] <;> (first | exact hr | exact ⟨hr, by simp_all⟩ | simp_all)
         · simp [stable, wrapStable, hst, htm, hcl, detOf]
-      · refine ⟨.wrap path (.opaqueWrapper [] (detOf Full (.wrap id (.user u msg) c) (layerDetails Full vf (.wrap id (.user u msg) c)) .none) mtPrefix []) c', ?_, ?_, ?_⟩
+        · enc_tac
+      · refine ⟨.wrap path (.opaqueWrapper [] (detOf Full (.wrap id (.user u msg) c) (layerDetails Full vf (.wrap id (.user u msg) c)) .none) mtPrefix []) c', ?_, ?_, ?_, ?_⟩
         · simp [encode, decode, hd, typeKey, Full_knows, detOf, buildWrap, decodeHid, htm, hcl, text, wrapText, h0, h1, extractPrefix_self]
         · simp [shape, label, storedMark, isSigOf, isMultiNode, stSigOf, annOf, safeOf, layerStackStr, isStackKey, layerHint, layerDetail, layerIssueLink, layerKeys, layerDomain, layerTags, layerHTTP, layerGrpc, isAssertionFailure, isUnimplementedError, isWithIssueLink, timeoutLayer, layerDetails, Err.opaqueDet, detOf, text, wrapText, hs, ht, h0, h1, mtPrefix, mtFull, htm, hns] <;> try rfl
         · simp [stable, wrapStable, hst, htm, hcl, detOf]
+        · enc_tac
   | _ =>
     simp [encode, decode, hd, typeKey, Full_knows, Full_arch, detOf, buildWrap, decodeHid, decodeList, shape, label, storedMark, isSigOf, isMultiNode, stSigOf, annOf, safeOf, layerStackStr, isStackKey, layerHint, layerDetail, layerIssueLink, layerKeys, layerDomain, layerTags, layerHTTP, layerGrpc, isAssertionFailure, isUnimplementedError, isWithIssueLink, timeoutLayer, layerDetails, Err.opaqueDet, text, stable,
       wrapStable, wrapText, hs, ht, hst, extractPrefix_self, extractPrefix_pfx, mtPrefix, mtFull] at h ⊢
@@ -107,12 +124,12 @@ theorem hop_wrap (vf : Err → Str) (id : Ident) (k : WrapKind) (c : Err) (path 
 
 theorem hop_leaf (vf : Err → Str) (id : Ident) (k : LeafKind) (path : List Nat)
     (h : leafStable k = true) :
-    ∃ e', decode Full path (encode Full vf (.leaf id k)) = some e' ∧ shape vf e' = shape vf (.leaf id k) ∧ stable e' = true := by
+    ∃ e', decode Full path (encode Full vf (.leaf id k)) = some e' ∧ shape vf e' = shape vf (.leaf id k) ∧ stable e' = true ∧ encode Full vf e' = encode Full vf (.leaf id k) := by
   cases k with
   | opaqueLeaf msg d hid =>
     simp [leafStable] at h
     obtain ⟨h1, h2⟩ := h
-    refine ⟨.leaf path (.opaqueLeaf msg d hid), ?_, ?_, ?_⟩
+    refine ⟨.leaf path (.opaqueLeaf msg d hid), ?_, ?_, ?_, ?_⟩
     · simp [encode, decode, Full_knows, buildLeaf, decodeList, h1]
       cases hid with
       | nil =>
@@ -121,53 +138,65 @@ theorem hop_leaf (vf : Err → Str) (id : Ident) (k : LeafKind) (path : List Nat
       | cons a r => simp
     · simp [shape, label, storedMark, isSigOf, isMultiNode, stSigOf, annOf, safeOf, layerStackStr, isStackKey, layerHint, layerDetail, layerIssueLink, layerKeys, layerDomain, layerTags, layerHTTP, layerGrpc, isAssertionFailure, isUnimplementedError, isWithIssueLink, timeoutLayer, layerDetails, Err.opaqueDet, detOf, text, leafText] <;> try rfl
     · simp [stable, leafStable, h1, h2]
+    · enc_tac
   | user u msg =>
     simp [leafStable] at h
     have hcl : classify u.name = .other := userOK_classify h
     have hns := userOK_notStack h
     simp [isStackKey] at hns
     have htm := tm_user_leaf id u msg h
-    refine ⟨.leaf path (.opaqueLeaf msg (detOf Full (.leaf id (.user u msg)) (layerDetails Full vf (.leaf id (.user u msg))) .none) []), ?_, ?_, ?_⟩
+    refine ⟨.leaf path (.opaqueLeaf msg (detOf Full (.leaf id (.user u msg)) (layerDetails Full vf (.leaf id (.user u msg))) .none) []), ?_, ?_, ?_, ?_⟩
     · simp [encode, decode, typeKey, Full_knows, detOf, buildLeaf, decodeList, htm, hcl, text, leafText]
     · simp [shape, label, storedMark, isSigOf, isMultiNode, stSigOf, annOf, safeOf, layerStackStr, isStackKey, layerHint, layerDetail, layerIssueLink, layerKeys, layerDomain, layerTags, layerHTTP, layerGrpc, isAssertionFailure, isUnimplementedError, isWithIssueLink, timeoutLayer, layerDetails, Err.opaqueDet, detOf, text, leafText, htm, hns] <;> try rfl
     · simp [stable, leafStable, detOf, htm, hcl]
+    · enc_tac
   | grpcStatus c m nd =>
     simp [leafStable] at h
-    refine ⟨.leaf path (.grpcStatus c m nd), ?_, ?_, ?_⟩
+    refine ⟨.leaf path (.grpcStatus c m nd), ?_, ?_, ?_, ?_⟩
     · simp [encode, decode, typeKey, Full_knows, detOf, buildLeaf, decodeList, h]
     · simp [shape, label, storedMark, isSigOf, isMultiNode, stSigOf, annOf, safeOf, layerStackStr, isStackKey, layerHint, layerDetail, layerIssueLink, layerKeys, layerDomain, layerTags, layerHTTP, layerGrpc, isAssertionFailure, isUnimplementedError, isWithIssueLink, timeoutLayer, layerDetails, Err.opaqueDet, text, leafText] <;> try rfl
     · simp [stable, leafStable, h]
+    · enc_tac
   | gogoStatus c m nd =>
     simp [leafStable] at h
-    refine ⟨.leaf path (.gogoStatus c m nd), ?_, ?_, ?_⟩
+    refine ⟨.leaf path (.gogoStatus c m nd), ?_, ?_, ?_, ?_⟩
     · simp [encode, decode, typeKey, Full_knows, detOf, buildLeaf, decodeList, h]
     · simp [shape, label, storedMark, isSigOf, isMultiNode, stSigOf, annOf, safeOf, layerStackStr, isStackKey, layerHint, layerDetail, layerIssueLink, layerKeys, layerDomain, layerTags, layerHTTP, layerGrpc, isAssertionFailure, isUnimplementedError, isWithIssueLink, timeoutLayer, layerDetails, Err.opaqueDet, text, leafText] <;> try rfl
     · simp [stable, leafStable, h]
+    · enc_tac
   | _ =>
     simp [encode, decode, typeKey, Full_knows, Full_arch, detOf, buildLeaf, decodeHid, decodeList, shape, label, storedMark, isSigOf, isMultiNode, stSigOf, annOf, safeOf, layerStackStr, isStackKey, layerHint, layerDetail, layerIssueLink, layerKeys, layerDomain, layerTags, layerHTTP, layerGrpc, isAssertionFailure, isUnimplementedError, isWithIssueLink, timeoutLayer, layerDetails, Err.opaqueDet, text, stable,
       leafStable, leafText] at h ⊢
     all_goals (first | done | exact h | simp_all)
 
 theorem hop_barrier (vf : Err → Str) (id : Ident) (m : BarrierMsg) (hd : Err) (path : List Nat)
-    (hc : ∃ c', decode Full (1 :: path) (encode Full vf hd) = some c' ∧ shape vf c' = shape vf hd ∧ stable c' = true) :
-    ∃ e', decode Full path (encode Full vf (.barrier id m hd)) = some e' ∧ shape vf e' = shape vf (.barrier id m hd) ∧ stable e' = true := by
-  obtain ⟨c', hd', hs, hst⟩ := hc
-  refine ⟨.barrier path ⟨m.smsg, if layerDetails Full vf (.barrier id m hd) = [] then none else some (layerDetails Full vf (.barrier id m hd))⟩ c', ?_, ?_, ?_⟩
+    (hm : m.recv ≠ some [])
+    (hc : ∃ c', decode Full (1 :: path) (encode Full vf hd) = some c' ∧ shape vf c' = shape vf hd ∧ stable c' = true ∧ encode Full vf c' = encode Full vf hd) :
+    ∃ e', decode Full path (encode Full vf (.barrier id m hd)) = some e' ∧ shape vf e' = shape vf (.barrier id m hd) ∧ stable e' = true ∧ encode Full vf e' = encode Full vf (.barrier id m hd) := by
+  obtain ⟨c', hd', hs, hst, hen⟩ := hc
+  refine ⟨.barrier path ⟨m.smsg, if layerDetails Full vf (.barrier id m hd) = [] then none else some (layerDetails Full vf (.barrier id m hd))⟩ c', ?_, ?_, ?_, ?_⟩
   · simp [encode, decode, typeKey, Full_knows, detOf, buildLeaf, decodeHid, decodeList, hd']
   · simp [shape, label, storedMark, isSigOf, isMultiNode, stSigOf, annOf, safeOf, layerStackStr, isStackKey, layerHint, layerDetail, layerIssueLink, layerKeys, layerDomain, layerTags, layerHTTP, layerGrpc, isAssertionFailure, isUnimplementedError, isWithIssueLink, timeoutLayer, layerDetails, Err.opaqueDet, text] <;> try rfl
   · simp [stable, hst]
+  · simp [encode, typeKey, Full_knows, detOf, hen, layerDetails]
+    cases hr : m.recv with
+    | none => simp
+    | some r =>
+      have : r ≠ [] := by intro h0; subst h0; exact hm hr
+      simp [this]
 
 theorem hop_second (vf : Err → Str) (id : Ident) (c s : Err) (path : List Nat)
-    (hc : ∃ c', decode Full (0 :: path) (encode Full vf c) = some c' ∧ shape vf c' = shape vf c ∧ stable c' = true)
-    (hsec : ∃ s', decode Full (1 :: path) (encode Full vf s) = some s' ∧ shape vf s' = shape vf s ∧ stable s' = true) :
-    ∃ e', decode Full path (encode Full vf (.second id c s)) = some e' ∧ shape vf e' = shape vf (.second id c s) ∧ stable e' = true := by
-  obtain ⟨c', hd, hs, hst⟩ := hc
-  obtain ⟨s', hd2, hs2, hst2⟩ := hsec
+    (hc : ∃ c', decode Full (0 :: path) (encode Full vf c) = some c' ∧ shape vf c' = shape vf c ∧ stable c' = true ∧ encode Full vf c' = encode Full vf c)
+    (hsec : ∃ s', decode Full (1 :: path) (encode Full vf s) = some s' ∧ shape vf s' = shape vf s ∧ stable s' = true ∧ encode Full vf s' = encode Full vf s) :
+    ∃ e', decode Full path (encode Full vf (.second id c s)) = some e' ∧ shape vf e' = shape vf (.second id c s) ∧ stable e' = true ∧ encode Full vf e' = encode Full vf (.second id c s) := by
+  obtain ⟨c', hd, hs, hst, hen⟩ := hc
+  obtain ⟨s', hd2, hs2, hst2, hen2⟩ := hsec
   have ht : text c' = text c := text_eq_of_shape hs
-  refine ⟨.second path c' s', ?_, ?_, ?_⟩
+  refine ⟨.second path c' s', ?_, ?_, ?_, ?_⟩
   · simp [encode, decode, typeKey, Full_knows, detOf, buildWrap, decodeHid, hd, hd2]
   · simp [shape, label, storedMark, isSigOf, isMultiNode, stSigOf, annOf, safeOf, layerStackStr, isStackKey, layerHint, layerDetail, layerIssueLink, layerKeys, layerDomain, layerTags, layerHTTP, layerGrpc, isAssertionFailure, isUnimplementedError, isWithIssueLink, timeoutLayer, layerDetails, Err.opaqueDet, detOf, text, hs, ht] <;> try rfl
   · simp [stable, hst, hst2]
+  · enc_tac
 
 theorem shapeL_length : ∀ {a b : List Err}, shapeL vf a = shapeL vf b → a.length = b.length
   | [], [], _ => rfl
@@ -179,9 +208,9 @@ theorem shapeL_length : ∀ {a b : List Err}, shapeL vf a = shapeL vf b → a.le
 
 theorem hop_multi (vf : Err → Str) (id : Ident) (k : MultiKind) (cs : List Err) (path : List Nat)
     (h : multiStable k cs.length = true)
-    (hc : ∃ cs', decodeList Full path 2 (encodeList Full vf cs) = some cs' ∧ shapeL vf cs' = shapeL vf cs ∧ stableL cs' = true) :
-    ∃ e', decode Full path (encode Full vf (.multi id k cs)) = some e' ∧ shape vf e' = shape vf (.multi id k cs) ∧ stable e' = true := by
-  obtain ⟨cs', hd, hs, hst⟩ := hc
+    (hc : ∃ cs', decodeList Full path 2 (encodeList Full vf cs) = some cs' ∧ shapeL vf cs' = shapeL vf cs ∧ stableL cs' = true ∧ encodeList Full vf cs' = encodeList Full vf cs) :
+    ∃ e', decode Full path (encode Full vf (.multi id k cs)) = some e' ∧ shape vf e' = shape vf (.multi id k cs) ∧ stable e' = true ∧ encode Full vf e' = encode Full vf (.multi id k cs) := by
+  obtain ⟨cs', hd, hs, hst, hen⟩ := hc
   have ht : textList cs' = textList cs := textList_eq_of_shapeL hs
   have hl : cs'.length = cs.length := shapeL_length hs
   simp only [multiStable, Bool.and_eq_true, decide_eq_true_eq] at h
@@ -193,66 +222,82 @@ theorem hop_multi (vf : Err → Str) (id : Ident) (k : MultiKind) (cs : List Err
     | cons a r => exact ⟨a, r, rfl⟩
   cases k with
   | join =>
-    refine ⟨.multi path .join cs', ?_, ?_, ?_⟩
+    refine ⟨.multi path .join cs', ?_, ?_, ?_, ?_⟩
     · simp [encode, decode, typeKey, Full_knows, detOf, buildLeaf, decodeHid, hd, hcs]
     · simp [shape, label, storedMark, isSigOf, isMultiNode, stSigOf, annOf, safeOf, layerStackStr, isStackKey, layerHint, layerDetail, layerIssueLink, layerKeys, layerDomain, layerTags, layerHTTP, layerGrpc, isAssertionFailure, isUnimplementedError, isWithIssueLink, timeoutLayer, layerDetails, Err.opaqueDet, text, multiText, hs, ht] <;> try rfl
     · simp [stable, multiStable, hst, hl']
+    · enc_tac
   | opaqueLeafCauses msg d hid =>
     simp at h
     obtain ⟨h1, h2⟩ := h
-    refine ⟨.multi path (.opaqueLeafCauses msg d hid) cs', ?_, ?_, ?_⟩
+    refine ⟨.multi path (.opaqueLeafCauses msg d hid) cs', ?_, ?_, ?_, ?_⟩
     · simp [encode, decode, Full_knows, buildLeaf, hd, hcs, h1]
       cases hid with
       | nil => simp at h2; cases hp : d.pay <;> simp_all
       | cons a r => simp
     · simp [shape, label, storedMark, isSigOf, isMultiNode, stSigOf, annOf, safeOf, layerStackStr, isStackKey, layerHint, layerDetail, layerIssueLink, layerKeys, layerDomain, layerTags, layerHTTP, layerGrpc, isAssertionFailure, isUnimplementedError, isWithIssueLink, timeoutLayer, layerDetails, Err.opaqueDet, text, multiText, hs] <;> try rfl
     · simp [stable, multiStable, hst, h1, h2, hl']
+    · enc_tac
   | stdJoin =>
-    refine ⟨.multi path (.opaqueLeafCauses (text (.multi id .stdJoin cs)) (detOf Full (.multi id .stdJoin cs) (layerDetails Full vf (.multi id .stdJoin cs)) .none) []) cs', ?_, ?_, ?_⟩
+    refine ⟨.multi path (.opaqueLeafCauses (text (.multi id .stdJoin cs)) (detOf Full (.multi id .stdJoin cs) (layerDetails Full vf (.multi id .stdJoin cs)) .none) []) cs', ?_, ?_, ?_, ?_⟩
     · simp [encode, decode, typeKey, Full_knows, detOf, buildLeaf, hd, hcs]
     · simp [shape, label, storedMark, isSigOf, isMultiNode, stSigOf, annOf, safeOf, layerStackStr, isStackKey, layerHint, layerDetail, layerIssueLink, layerKeys, layerDomain, layerTags, layerHTTP, layerGrpc, isAssertionFailure, isUnimplementedError, isWithIssueLink, timeoutLayer, layerDetails, Err.opaqueDet, detOf, text, multiText, hs] <;> try rfl
     · simp [stable, multiStable, hst, detOf, hl']
+    · enc_tac
   | fmtWrapErrors m =>
-    refine ⟨.multi path (.opaqueLeafCauses (text (.multi id (.fmtWrapErrors m) cs)) (detOf Full (.multi id (.fmtWrapErrors m) cs) (layerDetails Full vf (.multi id (.fmtWrapErrors m) cs)) .none) []) cs', ?_, ?_, ?_⟩
+    refine ⟨.multi path (.opaqueLeafCauses (text (.multi id (.fmtWrapErrors m) cs)) (detOf Full (.multi id (.fmtWrapErrors m) cs) (layerDetails Full vf (.multi id (.fmtWrapErrors m) cs)) .none) []) cs', ?_, ?_, ?_, ?_⟩
     · simp [encode, decode, typeKey, Full_knows, detOf, buildLeaf, hd, hcs]
     · simp [shape, label, storedMark, isSigOf, isMultiNode, stSigOf, annOf, safeOf, layerStackStr, isStackKey, layerHint, layerDetail, layerIssueLink, layerKeys, layerDomain, layerTags, layerHTTP, layerGrpc, isAssertionFailure, isUnimplementedError, isWithIssueLink, timeoutLayer, layerDetails, Err.opaqueDet, detOf, text, multiText, hs] <;> try rfl
     · simp [stable, multiStable, hst, detOf, hl']
+    · enc_tac
   | user u m =>
     simp at h
     have hcl : classify u.name = .other := userOK_classify h
     have hns := userOK_notStack h
     simp [isStackKey] at hns
     have htm := tm_user_multi id u m cs h
-    refine ⟨.multi path (.opaqueLeafCauses (text (.multi id (.user u m) cs)) (detOf Full (.multi id (.user u m) cs) (layerDetails Full vf (.multi id (.user u m) cs)) .none) []) cs', ?_, ?_, ?_⟩
+    refine ⟨.multi path (.opaqueLeafCauses (text (.multi id (.user u m) cs)) (detOf Full (.multi id (.user u m) cs) (layerDetails Full vf (.multi id (.user u m) cs)) .none) []) cs', ?_, ?_, ?_, ?_⟩
     · simp [encode, decode, typeKey, Full_knows, detOf, buildLeaf, hd, hcs, htm, hcl]
     · simp [shape, label, storedMark, isSigOf, isMultiNode, stSigOf, annOf, safeOf, layerStackStr, isStackKey, layerHint, layerDetail, layerIssueLink, layerKeys, layerDomain, layerTags, layerHTTP, layerGrpc, isAssertionFailure, isUnimplementedError, isWithIssueLink, timeoutLayer, layerDetails, Err.opaqueDet, detOf, text, multiText, hs, htm, htm, hns] <;> try rfl
     · simp [stable, multiStable, hst, detOf, htm, hcl, hl']
+    · enc_tac
 
 mutual
 /-- One hop between knowing processes: decoding succeeds, the visible tree and the
-    text at every node are unchanged, and the result is stable again. -/
-theorem hop_ok (vf : Err → Str) : (e : Err) → (path : List Nat) → stable e = true →
-    ∃ e', decode Full path (encode Full vf e) = some e' ∧ shape vf e' = shape vf e ∧ stable e' = true
+    text at every node are unchanged, the result is stable again, and it re-encodes to the very
+    message it was decoded from. -/
+theorem hop_ok_enc (vf : Err → Str) : (e : Err) → (path : List Nat) → stable e = true →
+    ∃ e', decode Full path (encode Full vf e) = some e' ∧ shape vf e' = shape vf e ∧ stable e' = true ∧
+      encode Full vf e' = encode Full vf e
   | .leaf id k, path, h => hop_leaf vf id k path (by simpa [stable] using h)
   | .barrier id m hd, path, h =>
-    hop_barrier vf id m hd path (hop_ok vf hd (1 :: path) (by simpa [stable] using h))
+    hop_barrier vf id m hd path (by simp [stable] at h; exact h.1) (hop_ok_enc vf hd (1 :: path) (by simp [stable] at h; exact h.2))
   | .wrap id k c, path, h => by
     simp [stable] at h
-    exact hop_wrap vf id k c path h.1 (hop_ok vf c (0 :: path) h.2)
+    exact hop_wrap vf id k c path h.1 (hop_ok_enc vf c (0 :: path) h.2)
   | .second id c s, path, h => by
     simp [stable] at h
-    exact hop_second vf id c s path (hop_ok vf c (0 :: path) h.1) (hop_ok vf s (1 :: path) h.2)
+    exact hop_second vf id c s path (hop_ok_enc vf c (0 :: path) h.1) (hop_ok_enc vf s (1 :: path) h.2)
   | .multi id k cs, path, h => by
     simp [stable] at h
-    exact hop_multi vf id k cs path h.1 (hop_ok_list vf cs path 2 h.2)
-theorem hop_ok_list (vf : Err → Str) : (cs : List Err) → (path : List Nat) → (i : Nat) → stableL cs = true →
-    ∃ cs', decodeList Full path i (encodeList Full vf cs) = some cs' ∧ shapeL vf cs' = shapeL vf cs ∧ stableL cs' = true
-  | [], _, _, _ => ⟨[], by simp [encodeList, decodeList], rfl, rfl⟩
+    exact hop_multi vf id k cs path h.1 (hop_ok_list_enc vf cs path 2 h.2)
+theorem hop_ok_list_enc (vf : Err → Str) : (cs : List Err) → (path : List Nat) → (i : Nat) → stableL cs = true →
+    ∃ cs', decodeList Full path i (encodeList Full vf cs) = some cs' ∧ shapeL vf cs' = shapeL vf cs ∧ stableL cs' = true ∧
+      encodeList Full vf cs' = encodeList Full vf cs
+  | [], _, _, _ => ⟨[], by simp [encodeList, decodeList], rfl, rfl, rfl⟩
   | e :: r, path, i, h => by
     simp [stableL] at h
-    obtain ⟨e', he, hs, hst⟩ := hop_ok vf e (i :: path) h.1
-    obtain ⟨r', hr, hsr, hstr⟩ := hop_ok_list vf r path (i + 1) h.2
-    exact ⟨e' :: r', by simp [encodeList, decodeList, he, hr], by simp [shapeL, hs, hsr], by simp [stableL, hst, hstr]⟩
+    obtain ⟨e', he, hs, hst, hen⟩ := hop_ok_enc vf e (i :: path) h.1
+    obtain ⟨r', hr, hsr, hstr, henr⟩ := hop_ok_list_enc vf r path (i + 1) h.2
+    exact ⟨e' :: r', by simp [encodeList, decodeList, he, hr], by simp [shapeL, hs, hsr], by simp [stableL, hst, hstr],
+      by simp [encodeList, hen, henr]⟩
 end
+
+/-- One hop between knowing processes: decoding succeeds, the visible tree and the
+    text at every node are unchanged, and the result is stable again. -/
+theorem hop_ok (vf : Err → Str) (e : Err) (path : List Nat) (h : stable e = true) :
+    ∃ e', decode Full path (encode Full vf e) = some e' ∧ shape vf e' = shape vf e ∧ stable e' = true := by
+  obtain ⟨e', h1, h2, h3, _⟩ := hop_ok_enc vf e path h
+  exact ⟨e', h1, h2, h3⟩
 
 end ErrModel
